@@ -54,6 +54,13 @@ class Gaussian2D(_Box):
         return -0.5 * self._r2(x) - self.ndim * 0.5 * np.log(2 * np.pi)
 
 
+class Gaussian3D(_Box):
+    ndim = 3
+
+    def log_likelihood(self, x):
+        return -0.5 * self._r2(x) - self.ndim * 0.5 * np.log(2 * np.pi)
+
+
 class Gaussian4D(_Box):
     ndim = 4
 
@@ -163,6 +170,7 @@ class Angle2D(Model):
 MODELS = {
     "angle2": Angle2D,
     "gauss2": Gaussian2D,
+    "gauss3": Gaussian3D,
     "gauss4": Gaussian4D,
     "rosen2": Rosenbrock2D,
     "plateau2": Plateau2D,
